@@ -18,8 +18,33 @@ def load_ndjson(path):
             continue
         e.setdefault("w", [])
         e.setdefault("t", "t0")
+        if e.get("k") == "api":
+            for fld, d in (("f", ""), ("ph", ""), ("op", ""), ("o", ""), ("r", 0), ("v", ""), ("n", 0)):
+                e.setdefault(fld, d)
         evs.append(e)
+    add_nfn(evs)
     return evs
+
+
+STEP_KINDS = {"reg", "R", "W", "VR", "VW", "AL", "AS", "XCHG", "RMW", "CAS", "CAS2", "CALL", "SYS", "RELAX", "cont",
+              "start"}
+
+
+def add_nfn(evs):
+    """nfn: function containing the next scheduling point of the same thread"""
+    nxt = {}
+    for e in reversed(evs):
+        if e.get("k") in STEP_KINDS:
+            e["nfn"] = nxt.get(e["t"], "")
+            fn = e.get("fn", "")
+            if e["k"] in ("cont", "reg"):
+                pass
+            elif e["k"] == "start" or not fn or fn == "?":
+                nxt[e["t"]] = ""
+            else:
+                nxt[e["t"]] = fn
+        else:
+            e.setdefault("nfn", "")
 
 
 def pack(traces, out):
@@ -46,23 +71,52 @@ def run_tlc(cfg, module, env=None, workers=4, timeout=600, extra=None, gen=GEN, 
     return rc, out
 
 
-def validate(scen_name, traces, workers=4, timeout=900, tmpdir=None):
-    """returns (accepted_indices(1-based set), tlc_output, stats)"""
-    tmpdir = tmpdir or tempfile.mkdtemp(prefix="vrt_tr_")
+def _validate_part(args):
+    scen_name, part, idxs, timeout = args
+    tmpdir = tempfile.mkdtemp(prefix="vrt_tr_")
     path = os.path.join(tmpdir, f"traces_{scen_name}.json")
-    pack(traces, path)
-    rc, out = run_tlc(f"MCT_{scen_name}.cfg", f"MCT_{scen_name}.tla", {"VRT_TRACES": path}, workers, timeout)
-    acc = set(int(m) for m in re.findall(r'<<"ACCEPT", (\d+)>>', out))
-    st = {}
+    pack(part, path)
+    rc, out = run_tlc(f"MCT_{scen_name}.cfg", f"MCT_{scen_name}.tla", {"VRT_TRACES": path}, 1, timeout)
+    shutil.rmtree(tmpdir, ignore_errors=True)
+    acc = set(idxs[int(m) - 1] for m in re.findall(r'<<"ACCEPT", (\d+)>>', out))
+    st = {"rc": rc, "generated": 0, "distinct": 0}
     m = re.search(r"(\d+) states generated, (\d+) distinct states found", out)
     if m:
-        st = {"generated": int(m.group(1)), "distinct": int(m.group(2))}
-    st["rc"] = rc
-    viol = re.findall(r"Invariant (\w+) is violated", out)
-    st["violated"] = viol
-    if "Error:" in out and not viol:
-        st["error"] = out[out.find("Error:"):][:2000]
+        st["generated"], st["distinct"] = int(m.group(1)), int(m.group(2))
+    st["violated"] = re.findall(r"Invariant (\w+) is violated", out)
+    if st["violated"]:
+        mk = re.findall(r"/\\ tk = (\d+)", out)
+        st["violated_trace"] = idxs[int(mk[-1]) - 1] if mk else idxs[0]
+    if ("Error:" in out and not st["violated"]) or rc == -9:
+        st["error"] = out[out.find("Error:"):][:2000] if "Error:" in out else "timeout"
     return acc, out, st
+
+
+def validate(scen_name, traces, workers=16, timeout=900, tmpdir=None):
+    """Validate traces with `workers` single-worker depth-first TLC processes.
+    returns (accepted_indices (1-based set), tlc_output_of_interest, stats)"""
+    import concurrent.futures as cf
+    n = len(traces)
+    nproc = max(1, min(workers, (n + 3) // 4))
+    parts = [[] for _ in range(nproc)]
+    for i in range(n):
+        parts[i % nproc].append(i + 1)
+    jobs = [(scen_name, [traces[j - 1] for j in idxs], idxs, timeout) for idxs in parts if idxs]
+    acc, outs = set(), []
+    st = {"generated": 0, "distinct": 0, "violated": [], "rc": 0}
+    with cf.ThreadPoolExecutor(max_workers=nproc) as ex:
+        for a, out, s in ex.map(_validate_part, jobs):
+            acc |= a
+            st["generated"] += s["generated"]
+            st["distinct"] += s["distinct"]
+            for v in s["violated"]:
+                st["violated"].append(v)
+                st["violated_trace"] = s.get("violated_trace")
+                outs.append(out)
+            if s.get("error"):
+                st["error"] = s["error"]
+                outs.append(out)
+    return acc, "\n".join(outs), st
 
 
 def diagnose(scen_name, trace, timeout=300):
